@@ -15,6 +15,15 @@
  *                o <op> args...
  *                y <opidx> <kind> <count>     before op opidx: 0 sched_yield*count, 1 spin count, 2 sleep count us
  *                j len seed dkind dcount mid nint slen nalloc     join program run by the main thread
+ *                s <j> <mode> <src> <at>      workload j is not started by main with a fresh Thread but runs in a
+ *                                             Thread object cloned from the RUNNING worker src when src is about
+ *                                             to execute its op <at>:
+ *                                               1 src: assign(new_raw(Thread), current(Thread)), call; joined when src's ops are done
+ *                                               2 src: copy(current(Thread)), call, join at once
+ *                                               3 main: assign(new_raw(Thread), <src's Thread object>) while src waits, call
+ *                                               4 main: copy(<src's Thread object>) while src waits, call
+ *                                             (alone-runs of j use an ordinary Thread; a clone first removes the
+ *                                             user keys it inherited in its own copy of the thread-local table)
  * Output lines:  thr i sdig sxdig cdig cxdig allocs fins sbad=.. cbad=..
  *                lock m counter expect flagseen tryfail
  *                join k ok|<message>
@@ -50,7 +59,9 @@ static void mixs(uint64_t* d, const char* s) { while (*s) { mix(d, (unsigned cha
 struct node { int kind; long a; int nf; int f[2]; int nk; struct node** k; };
 struct op { int code; long a[12]; int na; struct node* tree; };
 struct yield { int at, kind; long count; };
-struct prog { struct op* ops; int nops, cops; struct yield* ys; int nys, cys; long nalloc; };
+struct clonespec { int j, mode, at; };
+struct prog { struct op* ops; int nops, cops; struct yield* ys; int nys, cys; long nalloc;
+              struct clonespec cl[8]; int ncl; int started_by; /* -1 = main starts it normally */ int clone_mode; };
 
 enum { O_CN, O_CP, O_CR, O_CG, O_CS, O_CD, O_CC, O_CX, O_OB, O_CH, O_OW, O_OD, O_GC, O_EX,
        O_TS, O_TG, O_TR, O_LK, O_JW, O_SB };
@@ -76,6 +87,9 @@ struct tctx {
   var tlsval[2048]; int ntls;
   var argref;
   int njoin;
+  int concurrent;              /* this run is part of the concurrent phase (clone specs are acted on) */
+  int is_clone;
+  int cl_done[8]; var cl_thr[8];
 };
 
 static __thread int my_tid = 0;               /* 0 = main thread */
@@ -84,6 +98,8 @@ static atomic_long g_ops;
 static atomic_int g_go;
 static atomic_long g_foreign;
 static atomic_int g_next_tid;
+static atomic_int g_req[16], g_ack[16];            /* clone requests to main, indexed by workload j */
+static struct tctx** g_conc = NULL;                /* contexts of the concurrent phase */
 static pthread_mutex_t bad_mu = PTHREAD_MUTEX_INITIALIZER;
 static char g_bad[8][240]; static int g_nbad = 0;
 
@@ -418,6 +434,52 @@ static void do_op(struct tctx* c, struct op* o) {
   }
 }
 
+/* clone specs of this worker that are due before op i (i = nops: everything still pending) */
+static void do_clones(struct tctx* c, int i) {
+  struct prog* p = c->p;
+  if (not c->concurrent) { return; }
+  for (int k = 0; k < p->ncl; k++) {
+    struct clonespec* cs = &p->cl[k];
+    if (c->cl_done[k] or cs->at > i) { continue; }
+    c->cl_done[k] = 1;
+    struct tctx* cc = g_conc[cs->j];
+    var volatile exc = NULL;
+    if (cs->mode is 1) {
+      try {
+        var cl = new_raw(Thread);
+        assign(cl, current(Thread));
+        c->cl_thr[k] = cl;
+        call(cl, cc->argref);
+      } catch (e) { exc = e; }
+      if (exc) { tbad(c, "cloning the running thread with assign/call raised %s", c_str(exc)); c->cl_thr[k] = NULL; }
+    } else if (cs->mode is 2) {
+      try {
+        var cl = copy(current(Thread));
+        call(cl, cc->argref);
+        join(cl);
+      } catch (e) { exc = e; }
+      if (exc) { tbad(c, "cloning the running thread with copy/call/join raised %s", c_str(exc)); }
+      else if (not cc->done) { tbad(cc, "join returned before the thread function finished"); }
+    } else {                                     /* the main thread clones this (waiting) worker */
+      atomic_store(&g_req[cs->j], 1);
+      while (not atomic_load(&g_ack[cs->j])) { sched_yield(); }
+    }
+  }
+}
+static void join_clones(struct tctx* c) {
+  struct prog* p = c->p;
+  if (not c->concurrent) { return; }
+  for (int k = 0; k < p->ncl; k++) {
+    if (p->cl[k].mode isnt 1 or c->cl_thr[k] is NULL) { continue; }
+    struct tctx* cc = g_conc[p->cl[k].j];
+    var volatile exc = NULL;
+    try { join(c->cl_thr[k]); } catch (e) { exc = e; }
+    if (exc) { tbad(c, "join of the cloned thread raised %s", c_str(exc)); continue; }
+    if (not cc->done) { tbad(cc, "join returned before the thread function finished"); continue; }
+    del_raw(c->cl_thr[k]); c->cl_thr[k] = NULL;
+  }
+}
+
 static void run_workload(struct tctx* c) {
   var slots[NSLOT];
   memset(slots, 0, sizeof slots);
@@ -428,6 +490,7 @@ static void run_workload(struct tctx* c) {
   int yi = 0;
   c->start = atomic_fetch_add(&g_ops, 1);
   for (int i = 0; i < p->nops; i++) {
+    do_clones(c, i);
     while (yi < p->nys and p->ys[yi].at <= i) { if (p->ys[yi].at is i) { do_yield(p->ys[yi].kind, p->ys[yi].count); } yi++; }
     c->stamp = atomic_fetch_add(&g_ops, 1);
     var volatile exc = NULL;
@@ -437,6 +500,8 @@ static void run_workload(struct tctx* c) {
     if (d isnt 0) { tbad(c, "exception depth %d after op %d", d, i); break; }
   }
   c->end = atomic_fetch_add(&g_ops, 1);
+  do_clones(c, p->nops + 1);
+  join_clones(c);
   /* leave no thread-local entries behind (the main thread's table outlives the case) */
   var volatile exc2 = NULL;
   try {
@@ -454,6 +519,16 @@ static void run_workload(struct tctx* c) {
 static var work_fn(var args) {
   struct tctx* c = deref(get(args, $I(0)));
   my_tid = c->tid;
+  if (c->is_clone) {
+    /* Thread_Assign gave this thread a copy of the source's thread-local table: drop the user entries of
+     * the copy (never dereferenced - the values belong to the source), the workload starts as when alone */
+    var volatile exc = NULL;
+    try {
+      var th = current(Thread);
+      for (int k = 0; k < NKEY; k++) { char kb[16]; snprintf(kb, sizeof kb, "k%d", k); if (mem(th, $S(kb))) { rem(th, $S(kb)); } }
+    } catch (e) { exc = e; }
+    if (exc) { tbad(c, "removing inherited thread-local entries raised %s", c_str(exc)); }
+  }
   run_workload(c);
   c->done = 1;
   return NULL;
@@ -538,6 +613,7 @@ static void reset_case(void) {
     for (int k = 0; k < progs[i].nops; k++) { free_node(progs[i].ops[k].tree); }
     free(progs[i].ops); free(progs[i].ys);
     memset(&progs[i], 0, sizeof progs[i]);
+    progs[i].started_by = -1;
   }
   nmjobs = 0; cfgT = 0; g_nbad = 0;
 }
@@ -605,6 +681,15 @@ int main(int argc, char** argv) {
         long* f = (long*)&mjobs[nmjobs++];
         for (int i = 0; i < 8; i++) { f[i] = strtol(w[1+i], NULL, 10); }
       }
+      else if (strcmp(w[0], "s") is 0 and n >= 5) {
+        int j = atoi(w[1]), mode = atoi(w[2]), src = atoi(w[3]), at = atoi(w[4]);
+        if (j < 0 or j >= cfgT or src < 0 or src >= cfgT or j is src or mode < 1 or mode > 4 or at < 0) { harness_bug("s line"); }
+        if (cfg_main and (j is 0 or src is 0)) { harness_bug("s line: workload 0 is the main thread's"); }
+        if (progs[src].ncl >= 8) { harness_bug("too many clones of one worker"); }
+        progs[j].started_by = src; progs[j].clone_mode = mode;
+        struct clonespec* cs = &progs[src].cl[progs[src].ncl++];
+        cs->j = j; cs->mode = mode; cs->at = at;
+      }
       else { harness_bug("unknown line"); }
       continue;
     }
@@ -647,13 +732,44 @@ int main(int argc, char** argv) {
       reset_locks();
       atomic_store(&g_ops, 0);
       atomic_store(&g_go, cfg_barrier ? 0 : 1);
-      for (int i = 0; i < T; i++) { conc[i] = mkctx(i, cfg_main and i is 0, cfg_barrier); }
+      int nmode4 = 0, pending = 0;
+      for (int i = 0; i < T; i++) {
+        bool cl = progs[i].started_by >= 0;
+        conc[i] = mkctx(i, cfg_main and i is 0, cl ? 0 : cfg_barrier);
+        conc[i]->concurrent = 1; conc[i]->is_clone = cl;
+        atomic_store(&g_req[i], 0); atomic_store(&g_ack[i], 0);
+        if (cl and progs[progs[i].started_by].started_by >= 0) { harness_bug("clone of a clone"); }
+        if (cl and progs[i].clone_mode >= 3) { pending++; }
+        if (cl and progs[i].clone_mode is 4) { nmode4++; }
+      }
+      /* copy() in main registers the clone with main's collector: main must not collect while it runs */
+      if (nmode4 and (nmode4 > 1 or cfg_main or cfg_gcthr)) { harness_bug("mode 4 clone needs main=0 gcthr=0 and is allowed once"); }
+      g_conc = conc;
       int first = cfg_main ? 1 : 0;
-      for (int i = first; i < T; i++) { thr[i] = cfg_gcthr ? (var)new(Thread, fn_work) : (var)new_raw(Thread, fn_work); }
+      #define NORMAL(i) (progs[i].started_by < 0)
+      #define MAINCL(i) (progs[i].started_by >= 0 and progs[i].clone_mode >= 3)
+      for (int i = first; i < T; i++) { if (NORMAL(i)) { thr[i] = cfg_gcthr ? (var)new(Thread, fn_work) : (var)new_raw(Thread, fn_work); } }
       var volatile exc = NULL;
-      try { for (int i = first; i < T; i++) { call(thr[i], conc[i]->argref); } } catch (e) { exc = e; }
+      try { for (int i = first; i < T; i++) { if (NORMAL(i)) { call(thr[i], conc[i]->argref); } } } catch (e) { exc = e; }
       if (exc) { printf("HARNESS-BUG thread start raised %s\n", c_str(exc)); printf("done\n"); fflush(stdout); _exit(3); }
       atomic_store(&g_go, 1);
+      /* clone requests: the source worker waits (it does not touch its thread-local table meanwhile) */
+      while (pending) {
+        for (int j = first; j < T; j++) {
+          if (not MAINCL(j) or atomic_load(&g_ack[j]) or not atomic_load(&g_req[j])) { continue; }
+          var src = thr[progs[j].started_by];
+          var volatile cexc = NULL;
+          try {
+            if (progs[j].clone_mode is 3) { thr[j] = new_raw(Thread); assign(thr[j], src); }
+            else { thr[j] = copy(src); }
+            call(thr[j], conc[j]->argref);
+          } catch (e) { cexc = e; }
+          if (cexc) { tbad(conc[j], "cloning a running thread from the main thread raised %s", c_str(cexc)); thr[j] = NULL; failed = true; }
+          atomic_store(&g_ack[j], 1);
+          pending--;
+        }
+        if (pending) { sched_yield(); }
+      }
       for (int k = 0; k < nmjobs and not failed; k++) {
         char msg[160]; const char* r = NULL; var volatile jexc = NULL;
         try { r = join_program(&mjobs[k], msg, sizeof msg); } catch (e) { jexc = e; }
@@ -662,16 +778,26 @@ int main(int argc, char** argv) {
         else { snprintf(jres[jres_n++], 200, "ok"); }
       }
       if (cfg_main) { run_workload(conc[0]); conc[0]->done = 1; }
+      for (int pass = 0; pass < 2; pass++) {
+        for (int i = first; i < T; i++) {
+          if (thr[i] is NULL or (pass is 0) isnt NORMAL(i)) { continue; }
+          var volatile jexc = NULL;
+          try { join(thr[i]); } catch (e) { jexc = e; }
+          if (jexc) { tbad(conc[i], "join raised %s", c_str(jexc)); failed = true; }
+        }
+      }
       for (int i = first; i < T; i++) {
-        var volatile jexc = NULL;
-        try { join(thr[i]); } catch (e) { jexc = e; }
-        if (jexc) { tbad(conc[i], "join raised %s", c_str(jexc)); failed = true; }
-        if (not conc[i]->done) { tbad(conc[i], "join returned before the thread function finished"); failed = true; }
+        if (not conc[i]->done) { tbad(conc[i], "join returned before the thread function finished (or the clone was never started)"); failed = true; }
       }
       if (not failed) {
-        for (int i = first; i < T; i++) { if (not cfg_gcthr) { del_raw(thr[i]); } thr[i] = NULL; }
+        for (int i = first; i < T; i++) {
+          if (thr[i] and ((NORMAL(i) and not cfg_gcthr) or (MAINCL(i) and progs[i].clone_mode is 3))) { del_raw(thr[i]); }
+          thr[i] = NULL;
+        }
         for (int i = 0; i < T; i++) { check_ledger(conc[i], "concurrent"); }
       }
+      #undef NORMAL
+      #undef MAINCL
     }
 
     /* 3. report */
